@@ -64,10 +64,15 @@ def run(ctx):
             raise MachineryError('lock-step action %s never taken' % a)
     checked_pools()
     scripts = []
-    n = 2000 if quick else 40000
+    n = 800 if quick else 40000
     scripts += splitfam.emit_scripts(ctx, PLAIN, depth, 'C05_emit', simulate=n,
                                      maxlen=30 if quick else 50, minlen=3, seed=ctx.seed * 11 + 3)
     scripts += splitfam.emit_scripts(ctx, ['parensemi'], 3, 'C05_emit_exh', exhaustive_len=5 if quick else 6, softlen=4 if quick else 5)
+    cover = splitfam.cover_scripts(ctx, PLAIN, depth, 'C05_cover', transitions=not quick)
+    for i, c in enumerate(cover):
+        for j in (range(len(splitfam.PROBES)) if not quick else [i]):
+            scripts.append({'hist': splitfam.with_probe(c['hist'], j)})
+    ctx.cov['cover_scripts'] = len(cover)
     for w in wit:
         scripts.append({'hist': w['hist'], 'bad': 'model-cex'})
     traces, meta, seen = [], [], set()
